@@ -80,6 +80,9 @@ func init() {
 			bluemonday.StrictPolicy().AllowElements("script", "b").AllowAttrs("onclick").Globally().AllowUnsafe(true)
 			bluemonday.NewPolicy().AllowElementsContent("object").AllowElements("i")
 			bluemonday.UGCPolicy().AllowAttrs("style", "onclick", "background").OnElements("td", "th", "table")
+			// elements UGCPolicy allows without any attribute rule of their own
+			bluemonday.UGCPolicy().AllowAttrs("style", "onclick").OnElements("span", "div", "p", "b", "code", "em", "li", "h1", "strong", "i")
+			bluemonday.UGCPolicy().AllowStyles("position", "color").OnElements("span", "div", "b")
 			q := bluemonday.NewPolicy()
 			q.SkipElementsContent("x-hidden")
 			q.AllowNoAttrs().OnElements("a", "q")
@@ -91,7 +94,8 @@ func init() {
 		derive()
 		polluted := []string{"<x-a onload=\"1\" style=\"position: fixed\">t</x-a>", "<object>secret</object><title>t</title>", "<p>kept</p><embed>", "<b onclick=\"1\">b</b><script>s</script><i>i</i>",
 			"<iframe onload=x></iframe><form onload=y>f</form>", "<table><tr><td style=\"x\" onclick=\"y\" background=\"z\">c</td></tr></table>", "<a>bare</a><q>q</q><span>s</span>",
-			"<iframe>t</iframe><noscript>n</noscript><title>ti</title>"}
+			"<iframe>t</iframe><noscript>n</noscript><title>ti</title>",
+			"<span style=\"color: red\" onclick=\"y\">s</span><div onclick=\"z\">d</div><code style=\"x\">c</code><li onclick=\"1\">l</li><h1 style=\"position: fixed\">h</h1>"}
 		{
 			c.pid++
 			fmt.Fprintf(c.w, "policy %d %s %s\n", c.pid, "@UGC", bmx.HexS(early.VerifDump(sourceNamer)))
@@ -936,6 +940,9 @@ func init() {
 	}
 	permFam := families["perm"]
 	families["perm"] = func(c *ctx) {
+		// first, while the process has built no other policy: state shared between policies that an
+		// earlier family had already disturbed would make "before" and "after" agree
+		independence(c)
 		permFam(c)
 		monoFam(c)
 		directedMono(c)
@@ -945,8 +952,8 @@ func init() {
 	}
 	concFam := families["conc"]
 	families["conc"] = func(c *ctx) {
-		concFam(c)
 		independence(c)
+		concFam(c)
 	}
 
 	// directed material for individual properties
